@@ -10,7 +10,7 @@
 
 using namespace verif;
 
-static constexpr int MAXN = 8;
+static constexpr int MAXN = 13;
 
 struct Node {
 	frg::rbtree_hook hook;
@@ -39,8 +39,13 @@ struct RbHarness {
 	struct World {
 		alignas(16) unsigned char tree[sizeof(T)];
 		alignas(16) unsigned char nodes[sizeof(Node) * MAXN];
+		int shrinking;   // grow-then-shrink instances: set by the first removal (part of the state)
 	} w;
 	std::vector<int> ref; // ids in expected order
+	// grow-then-shrink: elements are only inserted until the tree holds all n, then only removed.  Every insertion order
+	// of n distinct keys and every removal order of every tree so reached, at a node count the full insert/remove
+	// exploration cannot reach (8th, 9th, 10th element: fix-ups that recurse twice).
+	bool monotone = false;
 
 	RbHarness(int n_, std::vector<int> keys_) : n(n_), keys(std::move(keys_)) {}
 	const char *prop() const { return "C06"; }
@@ -55,12 +60,18 @@ struct RbHarness {
 			p->key = keys[i];
 			p->id = i;
 		}
+		w.shrinking = 0;
 		ref.clear();
 	}
 	bool contained(int i) const { return std::find(ref.begin(), ref.end(), i) != ref.end(); }
 
 	// ops: kind<<8 | id   (ordered variant: insert has `before+1` in bits 16..)
 	void ops(std::vector<uint32_t> &out) {
+		if(monotone) {
+			if(!w.shrinking) for(int i = 0; i < n; i++) if(!contained(i)) out.push_back((0u << 8) | i);
+			if(w.shrinking || (int)ref.size() == n) for(int i = 0; i < n; i++) if(contained(i)) out.push_back((1u << 8) | i);
+			return;
+		}
 		for(int i = 0; i < n; i++) if(!contained(i)) {
 			if constexpr(Ordered) {
 				out.push_back((0u << 8) | i);               // before = null
@@ -94,6 +105,7 @@ struct RbHarness {
 				ref.insert(it, id);
 			}
 		} else {
+			if(monotone) w.shrinking = 1;
 			tree().remove(&node(id));
 			ref.erase(std::find(ref.begin(), ref.end(), id));
 			// removed hook fully reset
@@ -210,9 +222,23 @@ static Instance group_instance(const std::string &name, int n, std::vector<std::
 	return inst;
 }
 
+static Instance monotone_instance(const std::string &name, int n) {
+	Instance inst; inst.name = name;
+	inst.run = [=](const std::vector<CrashInfo> &cr) {
+		std::vector<int> k; for(int i = 0; i < n; i++) k.push_back(i);
+		RbHarness<Tree, false> h(n, k); h.monotone = true;
+		InstResult r = bfs(h, name, BfsOptions{}, cr);
+		for(auto &v : r.violations) v.instance = name;
+		return r;
+	};
+	inst.replay = [=](const std::string &) { return 3; };
+	return inst;
+}
+
 static std::vector<Instance> mk(const std::string &tier) {
 	std::vector<Instance> v;
 	bool th = tier == "thorough";
+	v.push_back(monotone_instance("rb-grow-then-shrink-N" + std::to_string(th ? 13 : 11), th ? 13 : 11));
 	int N = th ? 6 : 5, K = 3;
 	auto all = assignments(N, K);
 	int groups = th ? 27 : 9;
